@@ -49,6 +49,49 @@ def local_call_graph(crate):
     return edges
 
 
+FN_CALLS = ("std::ops::FnOnce::call_once", "std::ops::FnMut::call_mut", "std::ops::Fn::call")
+
+
+def _charging_wrapper(fn, bi, closure_path, by_path, resolve, summaries):
+    """The closure created in block `bi` of `fn` is passed straight to a local function that (a) calls its closure
+    parameter only at depth delta -1 past the depth != 0 test and (b) returns with the counter restored on every
+    path.  Returns that function's path, or None."""
+    local = None
+    for s in fn.blocks[bi]["stmts"]:
+        if s["k"] == "assign" and s["rv"]["k"] == "agg" and s["rv"].get("closure") == closure_path and not s["place"]["p"]:
+            local = s["place"]["l"]
+    if local is None:
+        return None
+    holders = {local}
+    for b in fn.blocks:
+        for s in b["stmts"]:
+            if s["k"] == "assign" and not s["place"]["p"] and s["rv"]["k"] == "use" and s["rv"]["op"].get("c") in ("move", "copy") \
+                    and not s["rv"]["op"]["pl"]["p"] and s["rv"]["op"]["pl"]["l"] in holders:
+                holders.add(s["place"]["l"])
+    uses = []
+    for cb, t in fn.calls():
+        if any(a.get("c") in ("move", "copy") and not a["pl"]["p"] and a["pl"]["l"] in holders for a in t["args"]):
+            uses.append(t)
+    if len(uses) != 1:
+        return None
+    w = resolve(uses[0])
+    if w is None:
+        return None
+    wf = by_path[w]
+    _e, pre, rets = flow(wf, summaries, resolve)
+    zt = zero_tests(wf)
+    idom = cfg.dominators(wf)
+    calls = [(cb, t) for cb, t in wf.calls() if facts.callee_names(t) & set(FN_CALLS) and "resolved" not in t["callee"]]
+    if not calls or any(d != 0 for (_v, d, _g) in rets):
+        return None
+    for cb, t in calls:
+        els = pre.get(cb, set())
+        dom_guard = any(cfg.dominates(idom, nz, cb) and nz != z for (_tb, (nz, z)) in zt.items())
+        if not els or {e[0] for e in els} != {-1} or not all(e[1] or dom_guard for e in els):
+            return None
+    return w
+
+
 def depth_effects(fn):
     """Per block: list of +1/-1/TOP effects of stores to remaining_depth (in order)."""
     defs = common.defs_of(fn)
@@ -387,6 +430,15 @@ def check_depth(ctx, crate, r_cycle, r_bal):
                 delta = frozenset(e[0] for e in els)
                 dom_guard = any(cfg.dominates(idom, nz, bi) and nz != z for (_tb, (nz, z)) in zt.items())
                 guarded = bool(els) and all(e[1] or dom_guard for e in els)
+                if t.get("k") == "closure" and not (delta == frozenset([-1]) and guarded):
+                    # a closure handed to a charging wrapper (`self.nested(|p| p.parse_list(..))`): the wrapper takes the
+                    # level, runs the closure, gives the level back
+                    w = _charging_wrapper(fn, bi, callee_owner, by_path, resolve, summaries)
+                    if w is not None:
+                        charged_n += 1
+                        r_cycle.ok("%s -> %s is charged: the closure only runs inside %s, which calls it one level down "
+                                   "(after the depth != 0 test) and restores the level" % (o, callee_owner, w), fn, t.get("line"))
+                        continue
                 if delta == frozenset([-1]) and guarded:
                     charged_n += 1
                     r_cycle.ok("%s -> %s is charged (depth delta -1, dominated by the depth != 0 edge)" % (o, callee_owner),
